@@ -7,6 +7,10 @@ func Scenarios(property string, thorough bool) []driver.Scenario {
 	switch property {
 	case "C11":
 		return c11Scenarios(thorough)
+	case "C16":
+		return c16Scenarios(thorough)
+	case "C18":
+		return c18Scenarios(thorough)
 	case "C19":
 		return c19Scenarios(thorough)
 	}
